@@ -585,7 +585,11 @@ META = {
              "2^-520, 2^700). Validated only (not proved): binary64/binary32 behaviour beyond the tie, by a failing-"
              "input search that always runs, also when the tie is broken: exact power-of-two scale equivariance "
              "PCHIP1D(x, 2^k y) == 2^k PCHIP1D(x, y) for k in {+-100,+-300,+-500,+-700} (float64) and {+-30,+-60,+-90} "
-             "(float32), finiteness, knot reproduction and data-range containment of the scaled interpolant."),
+             "(float32), finiteness, knot reproduction and data-range containment of the scaled interpolant; covariance under exact "
+             "rescaling of the abscissae PCHIP1D(2^k x, y)(2^k t) == PCHIP1D(x, y)(t), coefficients scaled by 2^(-jk), "
+             "k in {+-10,+-20,+-40,+-60}, and under exactly representable shifts of the origin (dyadic grids); "
+             "nearly uniform grids (relative jitter 1e-9..1e-3) and tiny spacings (1e-12..1e-6) are part of the "
+             "bit-exact correspondence and of the SciPy reference comparison (tolerance 1e-9 relative = 4.5e6 ulp)."),
     "note": ("Trusted: Coq kernel+VM, stdlib real-number axioms, the hand-written model (validated by the "
              "correspondence each run), PrimFloat==torch float64 elementwise. Theorems are in exact arithmetic. "
              "Floating-point range: the scale search excludes a (data, 2^k) pair only when the standard formula's own "
